@@ -2,12 +2,13 @@
    without errors, a tree t' with map join_entry t' = t (the parser returns one text element per line).
 
    The fragment `ml_resource` extends RoundTrip.simple_resource: pattern text may contain line breaks.
-     1.  the fragment
-     2.  layouts of a multi-line pattern, and render prints one
+     1.  the fragment: ml_pattern (values printable inline or in block form) and the wider wl_pattern used for every
+         value (block form only if all continuation lines, or the first line, are indented)
+     2.  layouts of a multi-line pattern (ml_value_layout, wl_value_layout), and render prints one
      3.  the pattern loop over continuation lines (ml_loop, ml_loop_block)
-     3b. get_pattern on a layout (get_pattern_ml)
+     3b. get_pattern on a layout (get_pattern_ml, get_pattern_wl)
      4.  parse (render cs t) (parse_render_ml; the entry level is Syntax/EntryLoop.v)
-     5.  the fragment lies inside wf_resource (ml_resource_wf) and contains simple_resource (simple_resource_ml) *)
+     5.  the fragment lies inside wf_resource (wl_pattern_wf, ml_resource_wf) and contains simple_resource *)
 From FluentV Require Import Base.Bytes Base.Outcome Base.Utf8 Base.Utf8Facts.
 From FluentV Require Import Syntax.Ast Syntax.ParserModel Syntax.Render Syntax.TreeNorm Syntax.ParseLemmas Syntax.RoundTrip
   Syntax.EntryLoop.
@@ -173,13 +174,14 @@ Definition ml_resource (t : resource) : bool := forallb ml_entry t.
 Definition continues_after (r : list pattern_element) : bool := match r with [] => false | _ => true end.
 
 (* the lines of a text element after its first line break; B: the indentation of the pattern.  A blank line
-   that does not lead a placeable is printed as a line end and at most B spaces (its own content is not
-   printed); every other line as a line end, B spaces and the line *)
+   that does not lead a placeable is printed as a line end and ANY number of spaces (its own content is not
+   printed; since the repair of finding D33 the parser returns "LF" for a blank line whatever spaces it has);
+   every other line as a line end, B spaces and the line *)
 Inductive cont_layout (B : nat) (continues : bool) : list bytes -> bytes -> Prop :=
 | col_nil : cont_layout B continues [] []
 | col_blank l r x s TL :
     is_blank_line l && negb ((match r with [] => true | _ => false end) && continues) = true ->
-    is_eol_bytes x -> s <= B -> cont_layout B continues r TL ->
+    is_eol_bytes x -> cont_layout B continues r TL ->
     cont_layout B continues (l :: r) (x ++ sp s ++ TL)
 | col_line l r x TL :
     is_blank_line l && negb ((match r with [] => true | _ => false end) && continues) = false ->
@@ -214,7 +216,7 @@ Proof.
     destruct (is_blank_line l && negb ((match r with [] => true | _ => false end) && continues)) eqn:Eb.
     + unfold rbind at 1. destruct (choose 2 cs2) as [n cs3].
       exists (x ++ sp (Nat.min n base) ++ TL), cs3. split; [reflexivity|].
-      apply col_blank; try assumption. apply Nat.le_min_r.
+      apply col_blank; try assumption.
     + exists (x ++ sp base ++ l ++ TL), cs2. split; [reflexivity|]. apply col_line; assumption.
 Qed.
 
@@ -692,15 +694,15 @@ Qed.
 
 (* a blank line: at most B spaces and a line end *)
 Lemma blank_eol_reach s x next phs raws lnb ci p :
-  s <= B -> is_eol_bytes x -> at_ bs p (sp s ++ x ++ next) -> starts_char next = true -> acc phs raws ->
+  is_eol_bytes x -> at_ bs p (sp s ++ x ++ next) -> starts_char next = true -> acc phs raws ->
   exists k phs', k <= length x /\ acc phs' (raws ++ [Some (RText [10%N])]) /\
     forall n, reach (k + n) (st_of phs lnb ci LineStart) p n (st_of phs' lnb ci LineStart) (length (sp s ++ x) + p).
 Proof.
-  intros Hs Hx H Hn Hacc. pose proof (at_app _ _ _ _ H) as H1. rewrite sp_length in H1.
+  intros Hx H Hn Hacc. pose proof (at_app _ _ _ _ H) as H1. rewrite sp_length in H1.
   destruct Hx as [-> | ->]; cbn [lf crlf app] in *.
-  - exists 1, (PHText p (S (s + p)) s LineStart :: phs). split; [unfold lf, crlf; cbn [length]; lia|]. split.
-    + apply acc_push; [exact Hacc|]. apply (fin_gen_text _ p (S (s + p)) s LineStart (s + p) [10%N]).
-      * cbn [is_line_start]. rewrite Nat.min_l by exact Hs. lia.
+  - exists 1, (PHText (s + p) (S (s + p)) 0 LineStart :: phs). split; [unfold lf, crlf; cbn [length]; lia|]. split.
+    + apply acc_push; [exact Hacc|]. apply (fin_gen_text _ (s + p) (S (s + p)) 0 LineStart (s + p) [10%N]).
+      * cbn [is_line_start Nat.min]. lia.
       * lia.
       * apply (slice_lf (s + p) next H1 Hn).
     + intros n. unfold reach, st_of. cbn [Nat.add]. rewrite (loop_step_blank_lf bs s next phs (length phs) lnb ci p n H).
@@ -1179,14 +1181,14 @@ Proof. destruct s; [exact (fun H => H) | reflexivity]. Qed.
 
 Lemma cont_layout_starts ls TL : cont_layout B cont ls TL -> starts_char (TL ++ Rest) = true.
 Proof.
-  intros [| l r x s TLr _ Hx _ _ | l r x TLr _ Hx _]; [apply rest_starts_char | |];
+  intros [| l r x s TLr _ Hx _ | l r x TLr _ Hx _]; [apply rest_starts_char | |];
     destruct Hx as [-> | ->]; reflexivity.
 Qed.
 
 Lemma cont_layout_cons l r TL : cont_layout B cont (l :: r) TL ->
   exists x body, TL = x ++ body /\ is_eol_bytes x /\ starts_char (body ++ Rest) = true.
 Proof.
-  intros H. inversion H as [| l' r' x s TLr _ Hx _ HCr | l' r' x TLr _ Hx HCr]; subst.
+  intros H. inversion H as [| l' r' x s TLr _ Hx HCr | l' r' x TLr _ Hx HCr]; subst.
   - exists x, (sp s ++ TLr). split; [reflexivity | split; [exact Hx|]].
     rewrite <- app_assoc. apply sp_starts, (cont_layout_starts r TLr HCr).
   - exists x, (sp B ++ l ++ TLr). split; [reflexivity | split; [exact Hx|]].
@@ -1212,7 +1214,7 @@ Lemma lines_complete ls TL : cont_layout B cont ls TL -> forall x body, TL = x +
   at_ bs p (body ++ Rest) -> 3 * length (body ++ Rest) + 8 <= n ->
   completes n (st_of phs lnb ci LineStart) p pfin (stream_raws raws ++ map inl (jl ls) ++ Srest).
 Proof.
-  induction 1 as [| l r x0 s TLr Hbl Hx0 Hs HCr IH | l r x0 TLr Hbl Hx0 HCr IH];
+  induction 1 as [| l r x0 s TLr Hbl Hx0 HCr IH | l r x0 TLr Hbl Hx0 HCr IH];
     intros x body ETL Hx phs raws lnb ci p n Hok Hlast Hpfin Hacc Hne Hci Hhit H Hn.
   - (* no line: impossible, TL = x ++ body is not empty *)
     destruct Hx as [-> | ->]; discriminate ETL.
@@ -1228,7 +1230,7 @@ Proof.
     subst l.
     destruct (cont_layout_cons l2 r2 TLr HCr) as (x2 & body2 & -> & Hx2 & Hsc2).
     assert (H' : at_ bs p (sp s ++ x2 ++ body2 ++ Rest)) by (rewrite <- !app_assoc in H; exact H).
-    destruct (blank_eol_reach s x2 (body2 ++ Rest) phs raws lnb ci p Hs Hx2 H' Hsc2 Hacc) as (k & phs' & Hk & Hacc' & Hreach).
+    destruct (blank_eol_reach s x2 (body2 ++ Rest) phs raws lnb ci p Hx2 H' Hsc2 Hacc) as (k & phs' & Hk & Hacc' & Hreach).
     assert (Hlenx : 1 <= length x2) by (destruct Hx2 as [-> | ->]; cbn; nlia).
     rewrite !app_length, sp_length in Hn.
     apply (completes_k k n _ p (n - k) _ _ _ ltac:(nlia) Hreach eq_refl).
